@@ -24,7 +24,7 @@ func init() {
 		NumCases: func(tier string) int { return pick(tier, 800, 30000) + pick(tier, 24, 600) + pick(tier, 400, 12000) },
 		Run:      runC10,
 		Floor: func(tier string, st map[string]int64) string {
-			for _, k := range []string{"op.PinVisit", "op.ResumeVisit", "op.SnapClose", "op.SetCollection.existing", "op.RemoveCollection", "churn.inserts", "walks", "c10.nodes-recycled", "c10.multi-store-cases", "failed-mutations", "c10.parallel-reader-cases", "c10.release-under-visit-cases", "c10.release-under-visit/completed"} {
+			for _, k := range []string{"op.PinVisit", "op.ResumeVisit", "op.SnapClose", "op.SetCollection.existing", "op.RemoveCollection", "churn.inserts", "walks", "c10.nodes-recycled", "c10.multi-store-cases", "failed-mutations", "c10.parallel-reader-cases", "c10.release-under-visit-cases", "c10.release-under-visit/completed", "c10.flush-in-flight-owner-stores"} {
 				if st[k] == 0 {
 					return "no " + k + " observed"
 				}
@@ -50,6 +50,15 @@ func runC10(ctx *Ctx, idx int) Result {
 		cfg := driver.Config{MemOnly: r.P(35), ReadbackK: 0, Walk: true, Churn: true}
 		hc := HistCfg{NColls: r.Range(1, 3), NKeys: r.Range(4, 10), KeyClass: gen.KeysShort, ValClass: gen.ValsShort,
 			Prio: gen.PrioRegime(r.Intn(int(gen.NumPrioRegimes))), Mix: mixC10, MaxSnaps: 3}
+		if idx%5 == 4 && !cfg.MemOnly {
+			// a Flush in flight is a version owner too: its BeforeItemWrite callback re-sets items of another
+			// collection, which thereby gets several new versions while the Flush still holds the one it pinned
+			cfg.CB, cfg.TouchMany, cfg.ReopenCheck = driver.CBTouchOther, true, true // (what the Flush saw of its version is read back from a copy of the file)
+			if hc.NColls < 2 {
+				hc.NColls = 2
+			}
+			ctx.Stats["c10.flush-in-flight-owner-stores"]++
+		}
 		hs = append(hs, NewHist(r.Fork(), cfg, hc, fmt.Sprintf("c10-%d-s%d", idx, i)))
 	}
 	steps := r.Range(30, 80)
